@@ -5,7 +5,7 @@
 From Coq Require Import List NArith ZArith Arith Bool.
 From Pika Require Import Base.Conc Base.Agent Gen.GenBarrier Gen.GenOnce
   Model.Latch Model.BarrierTree Model.Event Model.Once
-  Proofs.LatchProofs Proofs.BarrierTreeProofs Proofs.BarrierProofs Proofs.EventProofs Proofs.OnceProofs Proofs.OnceLiveProofs.
+  Proofs.LatchProofs Proofs.BarrierTreeProofs Proofs.BarrierClaimsProofs Proofs.BarrierProofs Proofs.EventProofs Proofs.OnceProofs Proofs.OnceLiveProofs.
 Import ListNotations.
 
 (* ------------------------------------------------------------------ latch *)
@@ -62,6 +62,64 @@ Theorem C09_tree_one_winner : forall E p progs sched, 1 <= E -> (p < pmod)%N ->
   (started (tre g) = E -> (forall t, tp (snd c t) = None) -> wins_of (trlog g) = 1).
 Proof. exact tree_one_winner. Qed.
 Print Assumptions C09_tree_one_winner.
+
+(* The ticket claims of arrive() — old -> full on the unpaired last node ("1 in 1"), old -> half
+   ("1 in 2"), half -> full ("2 in 2") — are each ONE atomic read-modify-write in the source:
+   the three flags are re-read from barrier.cpp on every run (Gen/GenBarrier.v).  A claim
+   rewritten as load; store makes this statement (and with it this file) fail. *)
+Theorem C09_tree_claims_are_cas :
+  claim_last_is_cas = true /\ claim_first_is_cas = true /\ claim_second_is_cas = true.
+Proof. exact claims_are_cas. Qed.
+Print Assumptions C09_tree_claims_are_cas.
+
+(* [treex_step cl] is the tree step for any shape cl of the three claims (a load; store claim
+   is two steps, another arrival may run in between); for the shape the source has it is the
+   step function [tree_step] used by every other theorem and by the lock-step tie. *)
+Theorem C09_tree_step_matches_source : forall p t tr pc,
+  treex_step src_claims p t tr (XP pc) = liftx (tree_step p t tr pc).
+Proof. exact treex_step_matches_source. Qed.
+Print Assumptions C09_tree_step_matches_source.
+
+(* C09_tree_one_winner for the model whose claim steps have the shape read from the source *)
+Theorem C09_tree_one_winner_src : forall E p progs sched, 1 <= E -> (p < pmod)%N ->
+  let c := trx_run src_claims E p sched progs in
+  let g := fst c in
+  started (tre g) <= E ->
+  wins_of (trlog g) <= 1 /\
+  (forall t s, In (t, true, s) (trlog g) -> s = E) /\
+  (wins_of (trlog g) = 1 -> started (tre g) = E /\ forall t, tpx (snd c t) = None) /\
+  (started (tre g) = E -> (forall t, tpx (snd c t) = None) -> wins_of (trlog g) = 1).
+Proof. exact tree_one_winner_src. Qed.
+Print Assumptions C09_tree_one_winner_src.
+
+(* ... and it is false for a load; store claim.  Unpaired last ticket, E = 3: arrivals 0 and 1
+   both read the old phase on node 1 before either stores; both win the ticket (both are in
+   round 1 afterwards), arrival 1 then returns true when 2 of the 3 arrivals have started. *)
+Theorem C09_tree_nonatomic_last_ticket_two_winners :
+  let c := trx_run cl_last_nonatomic 3 0%N sched_last (one_each 3) in
+  tpx (snd c 0) = Some (XP (TScan 1 0 2)) /\ tpx (snd c 1) = Some (XP (TScan 1 0 2)) /\
+  let c' := trx_run cl_last_nonatomic 3 0%N (sched_last ++ [(0, 0); (1, 0); (1, 0)]) (one_each 3) in
+  started (tre (fst c')) = 2 /\ In (1, true, 2) (trlog (fst c')) /\
+  ~ (forall t s, In (t, true, s) (trlog (fst c')) -> s = 3).
+Proof. exact nonatomic_last_ticket_two_winners. Qed.
+Print Assumptions C09_tree_nonatomic_last_ticket_two_winners.
+
+(* first-of-pair claim as load; store, E = 2: both arrivals take the first half, nobody wins *)
+Theorem C09_tree_nonatomic_first_ticket_no_winner :
+  let c := trx_run cl_first_nonatomic 2 0%N [(0, 0); (1, 0); (0, 0); (1, 0); (0, 0); (1, 0)] (one_each 2) in
+  started (tre (fst c)) = 2 /\ (forall t, t < 2 -> tpx (snd c t) = None) /\ tpx (snd c 2) = None /\
+  wins_of (trlog (fst c)) = 0 /\ length (trlog (fst c)) = 2.
+Proof. exact nonatomic_first_ticket_no_winner. Qed.
+Print Assumptions C09_tree_nonatomic_first_ticket_no_winner.
+
+(* second-of-pair claim as load; store, E = 4: a true after 3 of 4 arrivals *)
+Theorem C09_tree_nonatomic_second_ticket_early_winner :
+  let c := trx_run cl_second_nonatomic 4 0%N
+             [(0, 0); (0, 0); (1, 0); (2, 0); (1, 0); (2, 0); (1, 0); (2, 0); (1, 0); (2, 0); (1, 0); (2, 0); (2, 0); (2, 0)]
+             (one_each 4) in
+  started (tre (fst c)) = 3 /\ In (2, true, 3) (trlog (fst c)).
+Proof. exact nonatomic_second_ticket_early_winner. Qed.
+Print Assumptions C09_tree_nonatomic_second_ticket_early_winner.
 
 (* When the phase has its winner every ticket the phase used carries old_phase + 2 modulo 2^8,
    which is again a phase byte different from the old one: the next phase (any byte, also across
